@@ -145,8 +145,14 @@ class HistoryGen:
         self.deliver()
         if not same_toc or not self.toc_entries:
             self.toc_entries = self.make_toc()
-        elif rng.random() < 0.3 and self.toc_entries:
-            self.toc_entries = [e for e in self.toc_entries if rng.random() < 0.9]
+        elif self.toc_entries:
+            r = rng.random()
+            if r < 0.3:
+                self.toc_entries = [e for e in self.toc_entries if rng.random() < 0.9]
+            elif r < 0.6:
+                ids = [e[1] for e in self.toc_entries]      # another firmware: same names, other indices
+                rng.shuffle(ids)
+                self.toc_entries = [[e[0], i, e[2]] for e, i in zip(self.toc_entries, ids)]
         if rng.random() < 0.95:
             self.emit(['settoc', self.toc_entries])
 
@@ -514,10 +520,10 @@ def _check_block(case):
     for nm, ident, ty in case['toc']:
         toc[nm] = (ident, ty)
 
-    def open_session():
+    def open_session(table=None):
         ev(['refresh', True])
         ev(['pkt', 1, [5, 0, 0]])
-        ev(['settoc', case['toc']])
+        ev(['settoc', table if table is not None else case['toc']])
     open_session()
     ms = case['ms']
     ev(['new', ms])
@@ -626,18 +632,42 @@ def _check_block(case):
             raise _Fail('delete_ack_flag_or_cb', [False, False], [cfg.added, cfg.started, obs])
     if not case.get('reconnect'):
         return
-    # reconnect, add the same configuration again
+    # reconnect (possibly to a device whose TOC differs: other indices, variables removed or added) and
+    # add the same configuration object again: everything must follow the CURRENT table
     before = [(v.name, v.fetch_as, v.is_toc_variable()) for v in cfg.variables]
+    toc2_list = case.get('toc2') or case['toc']
+    toc2 = {}
+    for nm, ident, ty in toc2_list:
+        toc2[nm] = (ident, ty)
     ev(['linkdown'])
-    open_session()
+    open_session(toc2_list)
+    if cfg.added or cfg.started:
+        raise _Fail('stale_added_flag_after_reconnect_start_skips_create', [False, False],
+                    [cfg.added, cfg.started], 'the device was reset by the new session, the block does not exist any more')
     w, code, obs = ev(['addcfg', 0])
     after = [(v.name, v.fetch_as, v.is_toc_variable()) for v in cfg.variables]
     if after != before:
         raise _Fail('readd_duplicates_default_fetch_variables', before, after,
                     're-adding after a reconnect changed the variable list (code %d)' % code)
-    if code:
-        raise _Fail('readd_rejected', 'accepted', 'code %d' % code)
-    check_creation('_after_reconnect')
+    if w:
+        raise _Fail('add_config_sent_packets', [], w)
+    want2 = all(n in toc2 for n in table_names)
+    if (code == 0) != want2:
+        raise _Fail('readd_accept_not_by_current_toc', 'accepted' if want2 else 'rejected (KeyError)',
+                    'accepted' if code == 0 else 'raised code %d' % code,
+                    'configured names %s; names in the TOC of the new session: %s' % (
+                        table_names, [n for n in table_names if n in toc2]))
+    if not want2:
+        return
+    toc.clear()
+    toc.update(toc2)           # check_creation decodes against the table of the current session
+    wires = check_creation('_after_reconnect')
+    if wires is None:
+        return
+    w, code, obs = ev(['pkt', 1, [6, cfg.id, 0]])
+    if [x[2] for x in w] != [[3, cfg.id, period]] or not cfg.added:
+        raise _Fail('create_ack_not_followed_by_start_after_reconnect', [[3, cfg.id, period], True],
+                    [[x[2] for x in w], cfg.added])
 
 
 def _check_sync(case):
@@ -739,8 +769,34 @@ def _gen_block_case(rng, force=None):
             else:
                 vals.append(rng.choice(FLOAT_SPECIALS16 + [rng.getrandbits(16)] * 6))
         samples.append([rng.choice([0, 0xFFFFFF, rng.getrandbits(24), rng.getrandbits(24)]), vals])
-    return {'kind': 'block', 'toc': toc, 'ms': ms, 'vars': vs, 'samples': samples,
-            'delete': rng.random() < 0.5, 'reconnect': rng.random() < 0.5}
+    case = {'kind': 'block', 'toc': toc, 'ms': ms, 'vars': vs, 'samples': samples,
+            'delete': rng.random() < 0.5, 'reconnect': rng.random() < 0.6}
+    if case['reconnect']:
+        r = rng.random()
+        used = [v[1] for v in vs if v[0] != 'm']
+        if r < 0.25:
+            pass                                    # same firmware
+        else:
+            t2 = [list(e) for e in toc]
+            if r < 0.6:
+                ids = [e[1] for e in t2]            # same variables, indices permuted
+                rng.shuffle(ids)
+                for e, i in zip(t2, ids):
+                    e[1] = i
+            elif r < 0.8:
+                k = rng.randrange(1, 40)            # variables inserted in front: every index moves
+                if max(e[1] for e in t2) + k > 65535:
+                    k = 0
+                t2 = [[44 + j, j, rng.choice(tids)] for j in range(min(k, 6))] + [[e[0], e[1] + k, e[2]] for e in t2]
+            else:
+                gone = set(rng.sample(used, min(len(used), rng.choice([1, 1, 2])))) if used else set()
+                t2 = [e for e in t2 if e[0] not in gone]
+                ids = [e[1] for e in t2]
+                rng.shuffle(ids)
+                for e, i in zip(t2, ids):
+                    e[1] = i
+            case['toc2'] = t2
+    return case
 
 
 def _gen_sync_case(rng):
@@ -800,7 +856,7 @@ def replay(payload, ctx):
 
 
 TRUSTED_BASE = [
-    'C05/Model.v is hand-written from cflib/crazyflie/log.py, toc.py and syncLogger.py (add_config WITH fixes/F05b.patch); '
+    'C05/Model.v is hand-written from cflib/crazyflie/log.py, toc.py and syncLogger.py (with the repairs F05b, F05c, F05d); '
     'tied on every run by differential execution of random histories on the real classes (fake Crazyflie), comparing '
     'after every event the packets sent, callbacks, decoded samples, exception class and the complete state',
     'C05/Gen_Consts.v (type table, MAX_LEN, MAX_DATA_SIZE, commands, error codes) is regenerated from the source by a '
@@ -824,11 +880,11 @@ PROVED = ('Over the model: add_config accepts iff names in TOC, 1<=int(ms/10)<=2
           'data-packet branch return exactly the encoded values for every type mix and the 24-bit timestamp; '
           'added/started and their callbacks change exactly as the acknowledgements say and by nothing else; START is '
           'sent exactly on the first positive create ack; the variable list of an accepted configuration is stable under '
-          'every later history including reconnect and re-add (with fixes/F05b.patch); SyncLogger session is FIFO, '
-          'at-most-once, and stops at the disconnect.')
-NOT_PROVED = ('Refuted on the unchanged code and kept as known findings: raw-memory variables (add_memory) make create() '
-              'raise TypeError (F05a); added/started are not reset by a new session, so start() after reconnect + re-add '
-              'sends START without creating the block (F05c).  Not covered: protocol V1 messages (model and tie only), '
-              'append acknowledgements (ignored by the code), samples still queued in SyncLogger at disconnect are '
-              'dropped, reuse of one SyncLogger object over several sessions (stale DISCONNECT marker; model and tie '
-              'only), float period arguments, the firmware itself.')
+          'every later history including reconnect and re-add (F05b repaired) and the acknowledged reset of a new session clears the flags of all blocks '
+          '(F05c repaired), so a re-added block is created again; protocol V1 creation message; SyncLogger session is '
+          'FIFO, at-most-once, starts empty (F05d repaired) and stops at the disconnect.')
+NOT_PROVED = ('Refuted on the unchanged code and kept as a known finding: raw-memory variables (add_memory) make create() '
+              'raise TypeError (F05a; why it is not repaired: findings/C05.json why_not_fixed).  Not covered: protocol V1 has '
+              'its theorem but no room test exists in the code (more than 14 variables exceed 30 bytes); append '
+              'acknowledgements are ignored by the code; samples still queued in SyncLogger at disconnect are dropped; '
+              'Log.reset() (public) clears log_blocks without touching the flags; float period arguments; the firmware itself.')
